@@ -55,7 +55,7 @@ def run(ctx):
 
     # ---- C17.b pivots ------------------------------------------------------------
     K.check_time_pivots(ctx, f)
-    dec_closures = [b for n, b in f.bodies.items() if re.match(r"^repository::x509::Time::take_(opt_)?from::\{closure#\d+\}$", n)]
+    dec_closures = K.time_field_readers(f)
     # writers: year % 100 for UTCTime, full year for GeneralizedTime; six fields each
     for ty, first in (("UtcTime", r"^Rem\(DateTime::year\(self\.0\), 100\)$"), ("GeneralizedTime", r"^DateTime::year\(self\.0\)$")):
         wb = f.body("<%s%s as bcder::encode::PrimitiveContent>::write_encoded" % (X, ty))
@@ -93,7 +93,7 @@ def run(ctx):
             ctx.ob("R-CHK", "%s[%s]:field-reads" % (_dec_name(f, b), kind), (n2, n4) == want and chk,
                    "the %s arm reads exactly %s fixed-width numeric fields, each checked" % (kind, "6×2" if kind == "utc" else "4+5×2"),
                    where=b.loc, detail={"two_char": n2, "four_char": n4, "all_checked": chk})
-        zg = eq_matcher(r"^Try::branch\((Source|\w+)::take_u8\(prim\)\)↓Continue\.0$", r"^90$")
+        zg = eq_matcher(r"^Try::branch\((Source|\w+)::take_u8\(\w+\)\)↓Continue\.0$", r"^90$")
         mpz = MustPass(f, lambda c: False, guard_fn=lambda bd, s, bb: guard_edges(bd, s, bb, zg), name="terminating 'Z'")
         ok = mpz.holds(b.name)
         ctx.ob("R-GRD", "%s:terminated-by-Z" % _dec_name(f, b), ok,
